@@ -252,12 +252,23 @@ class SimEnv:
             with open(out_path, "wb") as fh:
                 fh.write(unb64(existing))
 
-        class Clock:
-            @staticmethod
-            def now(tz=None):
+        # Simulated clock seam, robust against how the CLI imports it: a datetime.datetime SUBCLASS whose now() /
+        # utcnow() / today() read the simulated clock (everything else is the real class), and - if the module global
+        # `datetime` is the module rather than the class - a shim namespace carrying that subclass.
+        class Clock(_dt.datetime):
+            @classmethod
+            def now(cls, tz=None):
                 return env.clock.now()
 
-        class CapturingRegistry(cli.ModelRegistry):
+            @classmethod
+            def utcnow(cls):
+                return env.clock.now()
+
+            @classmethod
+            def today(cls):
+                return env.clock.now()
+
+        class CapturingRegistry(getattr(cli, "ModelRegistry", object)):
             def __init__(self, *a, **kw):
                 super().__init__(*a, **kw)
                 env.registries.append(self)
@@ -272,9 +283,17 @@ class SimEnv:
         saved = {k: getattr(cli, k, None) for k in ("Path", "datetime", "ModelRegistry")}
         had_open = "open" in cli.__dict__
         old_argv, old_out, old_err, old_cwd = sys.argv, sys.stdout, sys.stderr, os.getcwd()
-        cli.Path = self.make_path_class()
-        cli.datetime = Clock
-        cli.ModelRegistry = CapturingRegistry
+        if saved.get("Path") is not None:
+            cli.Path = self.make_path_class()
+        import types as _types
+        if isinstance(saved.get("datetime"), _types.ModuleType):
+            shim = _types.SimpleNamespace(**{k: v for k, v in vars(saved["datetime"]).items() if not k.startswith("__")})
+            shim.datetime = Clock
+            cli.datetime = shim
+        elif saved.get("datetime") is not None:
+            cli.datetime = Clock
+        if saved.get("ModelRegistry") is not None:
+            cli.ModelRegistry = CapturingRegistry
         cli.open = self.sim_open
         os.environ.pop("TRAVIS", None)
         os.environ.pop("FORCE_COVERAGE", None)
@@ -310,7 +329,15 @@ class SimEnv:
             sys.argv, sys.stdout, sys.stderr = old_argv, old_out, old_err
             os.chdir(old_cwd)
             for k, v in saved.items():
-                setattr(cli, k, v)
+                if v is None and not hasattr(cli, k):
+                    continue
+                if v is None:
+                    try:
+                        delattr(cli, k)
+                    except AttributeError:
+                        pass
+                else:
+                    setattr(cli, k, v)
             if not had_open:
                 del cli.open
         rec = {
